@@ -111,6 +111,10 @@ func NewWorldOpts(root, binDir string, seed int64, o WorldOpts) (*World, error) 
 	if err := env.InitRepo(w.Clone, false); err != nil {
 		return nil, err
 	}
+	// scenarios may delete any branch on the remote, also the one its HEAD names
+	if r := env.Git(w.Remote, "config", "receive.denyDeleteCurrent", "ignore"); !r.OK() {
+		return nil, fmt.Errorf("remote config: %s", r.All())
+	}
 	for _, args := range [][]string{
 		{"remote", "add", "origin", w.Remote},
 		{"config", "lfs.url", srv.LFSURL(repoName, "")},
